@@ -65,6 +65,12 @@ type Hooks struct {
 	// BeforeSR, when set, is called before the transaction's StoreRepository call `call` (Get, Add, Remove,
 	// Update) on `names` is performed; it may block (gate).
 	BeforeSR func(call string, names []string)
+	// AfterSR, when set, is called when that StoreRepository call has returned.
+	AfterSR func(call string, names []string, err error)
+	// OnAdd, when set, sees the store infos handed to StoreRepository.Add (the pre-assigned RootNodeID).
+	OnAdd func(ss []sop.StoreInfo)
+	// WrapL2, when set, wraps the L2 cache handed to this transaction's StoreRepository (and to nothing else).
+	WrapL2 func(sop.L2Cache) sop.L2Cache
 	// failBlobAdd makes every blob Add of this transaction fail from now on (a commit that cannot persist).
 	failBlobAdd bool
 	// Calls is the sequence of catalogue-changing calls this transaction made ("Add a", "Remove a", …).
@@ -100,13 +106,22 @@ func (d *srW) gate(call string, names []string) {
 		d.h.BeforeSR(call, names)
 	}
 }
+func (d *srW) after(call string, names []string, err error) {
+	if d.h != nil && d.h.AfterSR != nil {
+		d.h.AfterSR(call, names, err)
+	}
+}
 func (d *srW) Get(ctx context.Context, names ...string) ([]sop.StoreInfo, error) {
 	d.gate("Get", names)
-	return d.in.Get(ctx, names...)
+	r, err := d.in.Get(ctx, names...)
+	d.after("Get", names, err)
+	return r, err
 }
 func (d *srW) GetWithTTL(ctx context.Context, b bool, dur time.Duration, names ...string) ([]sop.StoreInfo, error) {
 	d.gate("Get", names)
-	return d.in.GetWithTTL(ctx, b, dur, names...)
+	r, err := d.in.GetWithTTL(ctx, b, dur, names...)
+	d.after("Get", names, err)
+	return r, err
 }
 func (d *srW) GetAll(ctx context.Context) ([]string, error) { return d.in.GetAll(ctx) }
 func (d *srW) Add(ctx context.Context, ss ...sop.StoreInfo) error {
@@ -114,15 +129,20 @@ func (d *srW) Add(ctx context.Context, ss ...sop.StoreInfo) error {
 	for _, s := range ss {
 		names = append(names, s.Name)
 	}
+	if d.h != nil && d.h.OnAdd != nil {
+		d.h.OnAdd(ss)
+	}
 	d.gate("Add", names)
 	err := d.in.Add(ctx, ss...)
 	d.h.note("Add", names, err)
+	d.after("Add", names, err)
 	return err
 }
 func (d *srW) Remove(ctx context.Context, names ...string) error {
 	d.gate("Remove", names)
 	err := d.in.Remove(ctx, names...)
 	d.h.note("Remove", names, err)
+	d.after("Remove", names, err)
 	return err
 }
 func (d *srW) Update(ctx context.Context, ss []sop.StoreInfo) ([]sop.StoreInfo, error) {
@@ -181,7 +201,11 @@ func (e *Env) NewTxn(ctx context.Context, mode sop.TransactionMode, maxTime time
 		return nil, err
 	}
 	fio := fs.NewFileIO()
-	sr, err := fs.NewStoreRepository(ctx, rt, fs.NewManageStoreFolder(fio), e.L2, e.HashMod)
+	srL2 := e.L2
+	if h.WrapL2 != nil {
+		srL2 = h.WrapL2(e.L2)
+	}
+	sr, err := fs.NewStoreRepository(ctx, rt, fs.NewManageStoreFolder(fio), srL2, e.HashMod)
 	if err != nil {
 		return nil, err
 	}
@@ -217,6 +241,16 @@ func (e *Env) NewTxn(ctx context.Context, mode sop.TransactionMode, maxTime time
 	return &Txn{T: t, P: p, H: h, Env: e}, nil
 }
 
+// NewStoreRepo is a bare fs.StoreRepository on this environment's folders (as one more process would build it),
+// talking to the L2 cache l2 (the environment's own, or a pass-through decorator of it).
+func (e *Env) NewStoreRepo(ctx context.Context, l2 sop.L2Cache) (*fs.StoreRepository, error) {
+	rt, err := fs.NewReplicationTracker(ctx, e.Folders, e.Replicated(), e.L2)
+	if err != nil {
+		return nil, err
+	}
+	return fs.NewStoreRepository(ctx, rt, fs.NewManageStoreFolder(fs.NewFileIO()), l2, e.HashMod)
+}
+
 // Opts are the store options a case varies.
 type Opts struct {
 	Slot   int
@@ -240,6 +274,9 @@ func (e *Env) storeOptions(name string, o Opts) sop.StoreOptions {
 	}
 	return so
 }
+
+// StoreOptions are the options NewBtree hands to the repository for (name, o) on this layout.
+func (e *Env) StoreOptions(name string, o Opts) sop.StoreOptions { return e.storeOptions(name, o) }
 
 func NewBtree(ctx context.Context, t *Txn, name string, o Opts) (btree.BtreeInterface[int, string], error) {
 	return common.NewBtree[int, string](ctx, t.Env.storeOptions(name, o), t.T, nil)
